@@ -263,9 +263,8 @@ func init() {
 							continue
 						}
 						picks := map[string]int{"first": 0, "last": len(s.Seqs) - 1, "random": r.Intn(len(s.Seqs))}
-						if !ctx.Quick {
+						if !ctx.Quick && len(s.Seqs) > 8 {
 							picks["random2"] = r.Intn(len(s.Seqs))
-							picks["random3"] = r.Intn(len(s.Seqs))
 						}
 						for _, f := range familiesFor(s.Hint) {
 							for _, pn := range []string{"first", "last", "random", "random2", "random3"} {
